@@ -169,9 +169,10 @@ theorem demoA_codeArgs (S : Array Cell) : CodeAt2 demoDA c0.envmap demoHeapA S 1
     (.cons rfl (.cons hq (.cons rfl (.cons rfl .nil))))))))))))
 
 theorem demoA_inv : Inv3 demoDA W0 demoHeapA demoStA := by
-  refine ⟨(by intro x w h; cases h), (by intro x h; cases h), keepB_self _, (by intro x h; cases h), ?_,
+  refine ⟨(by intro x w h; cases h), (by intro x h; cases h), ⟨keepB_self _, fun _ h => absurd h List.not_mem_nil⟩,
+    (by intro x h; cases h), ?_,
     (by intro e n l l' h; cases h),
-    (by intro e n e' n' l h; cases h), (by intro e n l h; cases h)⟩
+    (by intro e n e' n' l h; cases h), (by intro e n l h; cases h), (by intro e n l h; cases h)⟩
   intro id lamM hid
   obtain ⟨rfl, rfl⟩ := demoA_final_get hid
   exact ⟨demoA_code0 _, rfl⟩
@@ -198,7 +199,7 @@ theorem demo_apply_runs :
   have hipO : s1.ipO = 13 := r1.ipO
   have hl : tops.isLambda s1.heap s1.ipL = true := by rw [hipL]; exact hl1
   have hf : ∀ o, tops.fetch s1.heap s1.ipL o = tops.fetch demoHeapA 1 o := by rw [hipL]; exact hf1
-  have hk0 : s1.heap.globals[0]? = some (.builtin 0) := r1.inv.extra 0 0 rfl
+  have hk0 : s1.heap.globals[0]? = some (.builtin 0) := r1.inv.extra.1 0 0 rfl
   have hg : tops.globGet s1.heap 0 = .builtin 0 := by
     show s1.heap.globals[0]?.getD .undefined = _
     rw [hk0]; rfl
